@@ -1,6 +1,7 @@
 """C02 — outgoing calls reach the wire intact, in order, exactly once or not at all."""
 import struct
 
+import common as C
 import framework as F
 from props.c01 import frame, good_frames, TAG, MAXD
 
@@ -58,6 +59,13 @@ class C02(F.Spec):
             ops.append("tick")
         return F.Case("gen%d-%s" % (i, mode), ops, {"tags": ["mode:" + mode], "mode": mode})
 
+    def buf_max(self):
+        if not hasattr(self, "_bufmax"):
+            import os, re
+            m = re.search(r"bufMax := (\d+)", open(os.path.join(C.LEAN, "SuplaVerif", "Gen", "Consts.lean")).read())
+            self._bufmax = int(m.group(1)) if m else 2048
+        return self._bufmax
+
     def monitor(self, case, groups, rc, err):
         fs = []
         if rc != 0:
@@ -87,6 +95,15 @@ class C02(F.Spec):
                 elif x == "LOG SENDOVF":
                     sendovf = True
                 elif x in ("LOG OUTAPPERR", "RESTART", "LOG ITERFAIL"):
+                    if x == "LOG OUTAPPERR" and not reported and not hard and not sendovf:
+                        # "unless the bounded send buffer overflows": the protocol layer's out buffer holds at most `bufMax` bytes, and
+                        # everything accepted and not yet on the wire (queue + out buffer + parked bytes) is at least what it holds -
+                        # with less than that outstanding the buffer cannot have overflowed, an accepted call was dropped
+                        backlog = len(expected) - len(wire)
+                        if backlog < self.buf_max():
+                            fs.append(F.Finding("accepted-call-dropped-without-overflow", "a call was accepted (request id returned) and then "
+                                                "dropped by the protocol layer with only %d bytes accepted and not yet sent (the out buffer "
+                                                "takes %d)" % (backlog, self.buf_max())))
                     reported = True
         if any(b <= a or b == 0 for a, b in zip([0] + rrs, rrs)):
             fs.append(F.Finding("rrid-order", "request ids not strictly increasing non-zero: %s" % rrs[:10]))
